@@ -386,7 +386,7 @@ func checkImpl(carg *callcheck.Argument, f ir.Value, args []ir.Value) {
 			if ok {
 				if !checkType(verb.Letter, arg.X.Type(), true) {
 					carg.Invalid(fmt.Sprintf("Printf format %s has arg #%d of wrong type %s",
-						verb.Raw, ptr, args[ptr-1].(*ir.MakeInterface).X.Type()))
+						verb.Raw, off, arg.X.Type()))
 					return
 				}
 			}
